@@ -824,6 +824,11 @@ def rule_opus_catalogue_slot(prog, fixture=False, rule_id="R-C01-7"):
                           "looked for in the wrong pair of sectors" % show(args[0]))
                     continue
                 lf[i_d] = lf.get(i_d, 0) + lf.pop(szk)
+            # a pointer walk `for (p = base; ...; ++p)`: p - base is the number of the pass
+            i0 = strip_all(iv[0]["c"][0]) if iv[0].get("c") else None
+            if i0 is not None and i0.get("k") == "DeclRefExpr" and lf.get(i_d) and lf.get(i0.get("d")) == -lf.get(i_d) and \
+                    i0.get("d") not in written_in_loop and not iv[0].get("w"):
+                lf.pop(i0["d"])
             others = [k_ for k_ in lf if k_ not in ("", i_d)]
             carried = [k_ for k_ in others if k_ in written_in_loop]
             if carried and len(carried) == 1 and lf == {carried[0]: 1}:
